@@ -221,8 +221,10 @@ func c08BFS(r *core.Run, fanout int, universe []string) {
 				if op == "+" {
 					e := leaves[name]
 					if err := sh.SetLink(ctx, name, &format.Link{Name: name, Size: e.Tsize, Cid: e.Cid}); err != nil {
-						r.InternalError("reference Set: " + err.Error())
-						return
+						// the reference refuses the insertion (names that agree in
+						// every addressable hash bit): not a state
+						r.Add("reference_rejected_transitions", 1)
+						continue
 					}
 					members[name] = true
 				} else {
@@ -267,7 +269,7 @@ func c08BFS(r *core.Run, fanout int, universe []string) {
 	}
 	bfsMu.Lock()
 	defer bfsMu.Unlock()
-	bfsStats = append(bfsStats, map[string]any{"fanout": fanout, "states": len(seen), "entry_sets": len(formsPerSet), "sets_with_several_forms": multi, "max_depth": maxDepth})
+	bfsStats = append(bfsStats, map[string]any{"fanout": fanout, "universe": trimNames(universe)[0], "states": len(seen), "entry_sets": len(formsPerSet), "sets_with_several_forms": multi, "max_depth": maxDepth})
 }
 
 var bfsMu sync.Mutex
@@ -281,8 +283,18 @@ func runC08(r *core.Run) {
 	}
 	u := gen.Universe(usize)
 	fanouts := []int{8, 16, 32, 64, 128, 256, 512, 1024}
-	core.ParallelFor(len(fanouts), workers, func(i int) { c08BFS(r, fanouts[i], u) })
-	sort.Slice(bfsStats, func(i, j int) bool { return bfsStats[i]["fanout"].(int) < bfsStats[j]["fanout"].(int) })
+	xu := gen.ExtremeUniverse()
+	core.ParallelFor(2*len(fanouts), workers, func(i int) {
+		if i < len(fanouts) {
+			c08BFS(r, fanouts[i], u)
+		} else {
+			// engineered hashes: buckets 0/max at every level, pairs separating
+			// only at the deepest addressable level
+			c08BFS(r, fanouts[i-len(fanouts)], xu)
+		}
+	})
+	r.Set("extreme_universe", xu)
+	sort.SliceStable(bfsStats, func(i, j int) bool { return bfsStats[i]["fanout"].(int) < bfsStats[j]["fanout"].(int) })
 	r.Set("bfs_per_fanout", bfsStats)
 	r.Set("universe", trimNames(u))
 
